@@ -121,7 +121,37 @@ def follower_test(ctx, prog, rule):
                        (decl_of(arg(strip(x), 0)) or {}).get('id') == ep for x in def_exprs(FE, d['id']))
         return False
 
+    def collect_switch(func, is_fol):
+        """switch (follower) { case K: ... }: K is accepted when its case runs straight into a return of a non-zero
+        (or non-constant, i.e. pointer) value, rejected when into `return 0`; anything else is not judged"""
+        for b in func.blocks.values():
+            if b.termKind != 'SwitchStmt' or b.cond is None or not is_fol(b.cond):
+                continue
+            for s_, unr in b.all_succs:
+                if s_ is None or unr:
+                    continue
+                lab = func.blocks[s_].label
+                cur = func.blocks[s_]
+                hops = 0
+                while not cur.elems and len(cur.succs) == 1 and hops < 20:
+                    cur = func.blocks[cur.succs[0]]
+                    hops += 1
+                ret = next((e for e in cur.elems if e.k == 'ReturnStmt'), None)
+                val = common.const_eval(ret.ch[0], {}) if ret is not None and ret.ch else None
+                accepted = ret is not None and ret.ch and (val is None or val != 0)
+                rejected = ret is not None and ret.ch and val == 0
+                if lab is not None and lab.k == 'CaseStmt':
+                    if accepted:
+                        consts.add(lab.get('caseValue'))
+                    elif not rejected:
+                        unknown.append(b.term or b.cond)
+                elif accepted or not rejected:
+                    # default (or no label: the switch falls through without a default) that accepts
+                    if lab is not None and lab.k == 'DefaultStmt':
+                        unknown.append(b.term or b.cond)
+
     def collect(func, is_fol, depth=0):
+        collect_switch(func, is_fol)
         for n in func.body.walk():
             if n.k == 'BinaryOperator' and n['op'] == '==':
                 for x, y in ((n.ch[0], n.ch[1]), (n.ch[1], n.ch[0])):
@@ -193,12 +223,12 @@ def cli_memory_rules(ctx, prog, cg, root_name, rule):
                    '%s is read by %s before anything has been written to it on some path' % (
                        bname, render(bad)[:60] if bad is not None else ''),
                    how='every read use is preceded by a store or a writing callee')
-        stuck = {min(c): conds for c, conds, w in C.stuck_cycles(f)}
+        stuck = C.stuck_cycles(f)
         live = C.reachable_blocks(f)
         loops = [c for c in C._sccs(f, live) if len(c) > 1 or c[0] in f.blocks[c[0]].succs]
         for i, comp in enumerate(sorted(loops, key=min)):
             n += 1
-            hit = stuck.get(min(comp))
+            hit = next((conds for c, conds, w in stuck if set(c) <= set(comp)), None)
             chk.ob(rule, 'loop-progress[%s#%d]' % (f.name, i), hit is None, f.where(), f.name,
                    'a loop of %s can go round without changing what its exit condition%s depend%s on (%s)' % (
                        f.name, '' if hit and len(hit) == 1 else 's', 's' if hit and len(hit) == 1 else '',
@@ -275,28 +305,58 @@ def line_start_rule(ctx, prog, rule):
             continue
         decs = [e for b in comp for e in F.blocks[b].elems
                 if e.k == 'UnaryOperator' and e.get('op') == '--' and decl_of(e.ch[0]) is not None]
+
+        def fixed(d, depth=0):
+            # a parameter never assigned, or a variable only ever holding such a parameter
+            sites = [k for k, _ in def_sites(F, d['id'])]
+            if d.get('kind') == 'parm':
+                return all(k == 'decl' for k in sites)
+            defs = def_exprs(F, d['id'])
+            return depth < 3 and bool(defs) and all(
+                decl_of(x) is not None and strip(x).k == 'DeclRefExpr' and fixed(decl_of(x), depth + 1) for x in defs)
         for dnode in decs:
             walker = decl_of(dnode.ch[0])['id']
+            is_index = not (strip(dnode.ch[0]).get('ct') or '').rstrip().endswith('*')
             for b in comp:
                 c = strip(F.blocks[b].cond) if F.blocks[b].cond is not None else None
-                if c is None or c.k != 'BinaryOperator' or c['op'] not in ('>', '>=', '<', '<=', '!='):
+                if c is None or c.k != 'BinaryOperator' or c['op'] not in ('>', '>=', '!=', '<', '<='):
                     continue
                 ids = [(decl_of(x) or {}).get('id') for x in c.ch]
-                if walker not in ids or None in ids:
+                if walker not in ids:
                     continue
                 bnode = c.ch[1] if ids[0] == walker else c.ch[0]
+                if is_index:
+                    # an offset into the content walked down: its lower bound must be offset 0 of a base that is the
+                    # start of the content (content[offset] with content never modified)
+                    bases = [decl_of(x.ch[0]) for x in F.body.walk() if x.k == 'ArraySubscriptExpr' and
+                             (decl_of(x.ch[1]) or {}).get('id') == walker]
+                    if not bases or any(bd is None for bd in bases):
+                        continue
+                    bv = common.const_eval(bnode, {})
+                    bd = decl_of(bnode)
+                    if bv is None and bd is None:
+                        continue
+                    n += 1
+                    if bv is not None:
+                        ok = bv in (0, 1) and all(fixed(x) for x in bases)
+                        bname = '%s[%s]' % (bases[0]['name'], bv)
+                    else:
+                        dv = [common.const_eval(x, {}) for x in def_exprs(F, bd['id'])]
+                        ok = bool(dv) and all(v == 0 for v in dv) and all(fixed(x) for x in bases)
+                        bname = bd['name']
+                    chk.ob(rule, 'line-start-search-bounded-by-content-start[%s]' % bname, ok, c.where(), F.name,
+                           'the backward search for the start of the line stops at %s, which is not (only) the start of the '
+                           'content: a comment mentioning the library twice ("# libsnoopy.so libsnoopy.so") is entered in '
+                           'mid-line, the character tested for "#" is not the first of the line, and the comment counts as an '
+                           'active entry (enable refuses, status reports a duplicate)' % bname,
+                           how='the offset is walked down to 0 of a base that only ever holds the start of the content')
+                    continue
+                if None in ids:
+                    continue
                 bound = decl_of(bnode)
                 if bound is None or bound['id'] == walker or not (strip(bnode).get('ct') or '').rstrip().endswith('*'):
                     continue
                 n += 1
-                # the bound: a parameter never assigned, or a variable only ever holding such a parameter
-                def fixed(d, depth=0):
-                    sites = [k for k, _ in def_sites(F, d['id'])]
-                    if d.get('kind') == 'parm':
-                        return all(k == 'decl' for k in sites)
-                    defs = def_exprs(F, d['id'])
-                    return depth < 3 and bool(defs) and all(
-                        decl_of(x) is not None and strip(x).k == 'DeclRefExpr' and fixed(decl_of(x), depth + 1) for x in defs)
                 ok = fixed(bound)
                 chk.ob(rule, 'line-start-search-bounded-by-content-start[%s]' % bound['name'], ok, c.where(), F.name,
                        'the backward search for the start of the line stops at %s, which is moved forward behind every hit '
@@ -314,7 +374,8 @@ def line_start_rule(ctx, prog, rule):
     def char_test(cond, wid, ch):
         """(is a test of *walker against character ch, successor index taken when they are equal)"""
         isx = lambda x: (x.k == 'UnaryOperator' and x.get('op') == '*' and (decl_of(x.ch[0]) or {}).get('id') == wid) or \
-            (x.k == 'ArraySubscriptExpr' and (decl_of(x.ch[0]) or {}).get('id') == wid and strip(x.ch[1]).get('v') == 0)
+            (x.k == 'ArraySubscriptExpr' and (decl_of(x.ch[0]) or {}).get('id') == wid and strip(x.ch[1]).get('v') == 0) or \
+            (x.k == 'ArraySubscriptExpr' and (decl_of(x.ch[1]) or {}).get('id') == wid and strip(x.ch[1]).k == 'DeclRefExpr')
         return isx
     for wid in sorted(walkers):
         isx = char_test(None, wid, None)
